@@ -56,7 +56,7 @@ ASSUMPTIONS = ["behaviour does not depend on key identity beyond equality (key n
                "dropping the last reference runs __del__ immediately (CPython reference counting)"]
 
 KEYS = ["k1", "k2", "k3", "k4", "k5", "k6", "k7", "k8"]
-DEPTH = {"quick": 9, "thorough": 12}
+DEPTH = {"quick": 7, "thorough": 10}
 
 
 def _configs():
